@@ -761,8 +761,12 @@ fn compare(ctx: &mut Ctx, entry: &str, o: &Obs, d: &Decoded, input: &[u8]) {
             }
             Err(_) => {
                 ctx.bucket("byron.network-id.err-explicit");
+                // the networks the library names itself (NetworkInfo::mainnet / testnet_preprod / testnet_preview)
+                // are not "unknown": an address of one of them reports its network id
                 if want_magic == MAINNET_MAGIC {
                     ctx.violation(&format!("{}/reports/byron-network-id-error-on-mainnet", entry), json!({"input": hx(input)}));
+                } else if want_magic == 1 || want_magic == 2 {
+                    ctx.violation(&format!("{}/reports/byron-network-id-error-on-named-testnet", entry), json!({"input": hx(input), "magic": want_magic}));
                 }
             }
         }
@@ -1992,8 +1996,14 @@ fn byron_mutant(r: &mut Rng) -> (Vec<u8>, &'static str) {
             "trailing-second-address"
         }
         4 => {
-            o.crc_xor = 1 + r.below(u32::MAX as u64);
-            "crc-xor"
+            if r.bool() {
+                // the right low 32 bits under wrong high bits: a checksum compared after truncation lets it through
+                o.crc_xor = (1 + r.below(u32::MAX as u64)) << 32;
+                "crc-high-bits"
+            } else {
+                o.crc_xor = 1 + r.below(u32::MAX as u64);
+                "crc-xor"
+            }
         }
         5 => {
             o.crc_fixed = Some(*r.pick(&[0u64, 1, 23, 0xffff_ffff, 0x1_0000_0000, u64::MAX]));
